@@ -13,6 +13,16 @@ from .terms import (V, PyC, Tup, ClassRef, Closure, ExcVal, asV, tobool, app, pr
                     IntV, StrV, EXC_CODE, subclasses, code_in, truthy, I, B)
 
 
+def T_is_string(v):
+    from .terms import is_string_term
+    return is_string_term(v)
+
+
+def T_strcat(parts):
+    from .terms import strcat
+    return strcat(parts)
+
+
 class Unsupported(Exception):
     """construct outside the supported subset (DESIGN 2.1): obligations of the function become unreachable-by-verifier"""
 
@@ -440,6 +450,9 @@ class Exec:
                 new = PyC({"Add": lambda a, b: a + b, "Sub": lambda a, b: a - b, "Mult": lambda a, b: a * b}[opn](cur.v, v.v))
             elif opn == "Add" and isinstance(cur, Tup) and isinstance(v, Tup):
                 new = Tup(cur.items + v.items, cur.kind)
+            elif opn == "Add" and (T_is_string(cur) or T_is_string(v)):
+                from .terms import as_str_term
+                new = T_strcat([cur if T_is_string(cur) else as_str_term(cur), v if T_is_string(v) else as_str_term(v)])
             else:
                 new = app({"Add": "py_add", "Sub": "py_sub", "Mult": "py_mul", "BitOr": "py_or", "BitAnd": "py_and"}.get(opn, "py_" + opn), asV(cur), asV(v))
             l.set(p3, new)
@@ -575,7 +588,8 @@ class Exec:
                     args.append(part.value)
                 else:
                     raise Unsupported("f-string part", e)
-            return [(app("py_format%d" % len(vs), asV(PyC(fmt)), *[asV(v) for v in vs]), p2) for vs, p2 in self.evlist(args, p)]
+            from .terms import format_term
+            return [(format_term(fmt, vs), p2) for vs, p2 in self.evlist(args, p)]
         if isinstance(e, ast.Lambda):
             fdef = ast.FunctionDef(name="<lambda>", args=e.args, body=[ast.Return(value=e.body)], decorator_list=[], returns=None, type_comment=None, type_params=[])
             ast.copy_location(fdef, e)
@@ -681,6 +695,12 @@ class Exec:
                     pass
             if opn == "Add" and isinstance(l, Tup) and isinstance(r, Tup):
                 res.append((Tup(l.items + r.items, l.kind), p2))
+                continue
+            if opn == "Add" and (T_is_string(l) or T_is_string(r)):
+                # string concatenation: the same term as the format / join spellings. The other operand must be a str as well (Python
+                # raises TypeError otherwise, which is not modelled), so str(x) = x there.
+                from .terms import as_str_term
+                res.append((T_strcat([l if T_is_string(l) else as_str_term(l), r if T_is_string(r) else as_str_term(r)]), p2))
                 continue
             name = {"Add": "py_add", "Sub": "py_sub", "Mult": "py_mul", "Div": "py_div", "Mod": "py_mod", "Pow": "py_pow", "FloorDiv": "py_floordiv",
                     "BitOr": "py_or", "BitAnd": "py_and"}.get(opn)
